@@ -14,6 +14,19 @@ def vary(rng, s):
     return s.upper() if k == 0 else s.lower() if k == 1 else s.capitalize() if k == 2 else s
 
 
+WRAPS = ["%s", "%s", "%s", "(%s)", "%s+0", "0+%s", "%s*1", "lwrd(%s)", "low(%s)+high(%s)*256", "%s|0", "%s^0", "-(-%s)", "~(~%s)", "%s<<0", "%s-0",
+         "byte2(%s)*256+low(%s)", "exp2(0)*%s", "%s&0xffff", "LOW(%s) + HIGH(%s) * 256", "hwrd(%s)+%s", "byte3(%s)+%s", "page(%s)+%s", "!%s*0+%s",
+         "lwrd((%s))", "low(-(-%s))+byte2(%s+0)*256"]
+
+
+def in_context(rng, name):
+    """a reference inside an expression context that leaves its value (0..65535) unchanged: every context must resolve the
+    name by the same rules - and fail when the name has no definition"""
+    w = rng.choice(WRAPS)
+    t = w % ((name,) * w.count("%s"))
+    return t if w == "%s" else "(" + t + ")"      # the caller may append "+ 1": keep the context closed
+
+
 def gen_case(rng):
     """a data-only program (every item is one word, so label values are item indices) plus register-alias lines.
     -> (lines, expected code bytes or None=must fail, definitions: list of (line index, kind, name))"""
@@ -23,6 +36,7 @@ def gen_case(rng):
     label_pos = {l: rng.randrange(0, n) for l in labels}          # label l precedes item label_pos[l]
     equ_line = {e: rng.randrange(0, n + 1) for e in equs}         # .equ may come anywhere (forward references allowed)
     setname = "Var"
+    used_equs = set()
     items = []      # (kind, payload)
     lines, defs = [], []
     cur_set = None
@@ -58,14 +72,15 @@ def gen_case(rng):
         c = rng.random()
         if c < 0.3:
             l = rng.choice(labels)
-            lines.append("  .dw %s" % vary(rng, l))
+            lines.append("  .dw %s" % in_context(rng, vary(rng, l)))
             words.append(("label", l))
         elif c < 0.55:
             e = rng.choice(list(equs))
-            lines.append("  .dw %s + 1" % vary(rng, e))
+            lines.append("  .dw %s + 1" % in_context(rng, vary(rng, e)))
+            used_equs.add(e)
             words.append(("val", equs[e] + 1))
         elif c < 0.7 and cur_set is not None:
-            lines.append("  .dw %s" % vary(rng, setname))
+            lines.append("  .dw %s" % in_context(rng, vary(rng, setname)))
             words.append(("val", cur_set))
         elif c < 0.85 and alias is not None:
             lines.append("  mov %s, r1" % vary(rng, alias[0]))
@@ -81,7 +96,7 @@ def gen_case(rng):
     for kind, v in words:
         x = label_pos[v] if kind == "label" else v
         code += (x % 65536).to_bytes(2, "little")
-    used = set(v for k, v in words if k == "label") | set(e for e in equs if any("%s + 1" % e.lower() in ln.lower() for ln in lines))
+    used = set(v for k, v in words if k == "label") | used_equs
     return lines, bytes(code).hex(), defs, used
 
 
@@ -104,6 +119,15 @@ def run(res):
         (".def tmp = r16\n.undef tmp\n mov tmp, r1\n", ("ERR",), "alias-after-undef"),
         (".def tmp = r16\n mov TMP, r1\n.undef TMP\n", ("OK", "012d"), "alias-case"),
         (" .dw nowhere\n", ("ERR",), "undefined"),
+    ] + [
+        # no context turns an undefined name into a value: every function, unary and binary position, every place an expression stands
+        (pat % ctx.replace("@", "nowhere"), ("ERR",), "undefined-in-context")
+        for ctx in ("low(@)", "high(@)", "byte2(@)", "byte3(@)", "byte4(@)", "lwrd(@)", "hwrd(@)", "page(@)", "exp2(@)", "log2(@)", "LOW(@)", "-@", "~@", "!@",
+                    "(@)", "@+0", "0+@", "@*0", "0*@", "@-@", "@==@", "@&0", "0&@", "@|0", "@<<0", "1<<@", "@>>1", "@/1", "1/@", "@%1", "low(high(@))",
+                    "low(@+1)", "low(-@)", "-low(@)", "@<1", "@!=0")
+        for pat in (" .dw %s\n", " ldi r16, %s\n", ".set v = %s\n .dw v\n", ".equ q = %s\n .dw q\n", ".if %s\n nop\n.endif\n nop\n", ".org %s\n nop\n",
+                    " .db %s, 0\n", ".eseg\n .db %s\n", " rjmp %s\n", " lds r16, %s\n", " ldd r16, Y+%s\n", " out %s, r16\n")
+    ] + [
         (" ldi r16, nowhere\n", ("ERR",), "undefined"),
         (".set v = 1\n .dw v\n.set V = v + 1\n .dw v\n", ("OK", "01000200"), "set-latest"),
         (" .dw v\n.set v = 1\n", ("ERR",), "set-before-assignment"),
